@@ -33,7 +33,10 @@ def need(m, what):
 
 def fn_body(src, header_re, what):
     """squashed text of the {...} block that follows the first match of header_re"""
-    m = need(re.search(header_re, src), what + ": header not found")
+    ms = list(re.finditer(header_re, src))
+    if len(ms) != 1:
+        raise Unrecognised(what + ": header found %d times" % len(ms))
+    m = ms[0]
     i = src.index("{", m.end() - 1)
     depth = 0
     for j in range(i, len(src)):
@@ -122,8 +125,19 @@ def lib_loop(lib):
     return {"pbLoop": True}
 
 
+WRAP = {"V5Parser": ("V5::parse(packet)", "V5(v5)", "v5"), "V7Parser": ("V7::parse(packet)", "V7(v7)", "v7"),
+        "V9Parser": ("V9::parse(packet,self)", "V9(v9)", "v9"), "IPFixParser": ("IPFix::parse(packet,self)", "IPFix(ipfix)", "ipfix")}
+
+
 def wrapper_version(src, ty, what):
     b = fn_body(src, r"impl\s+%s\s*\{" % ty, what)
+    call, ctor, var = WRAP[ty]
+    selfarg = "&mutself" if "self" in call else ""
+    sig = "pubfnparse(%spacket:&[u8])->Result<ParsedNetflow,NetflowParseError>{" % (selfarg + "," if selfarg else "")
+    okmap = "%s.map(|(remaining,%s)|ParsedNetflow::new(remaining,NetflowPacket::%s))" % (call, var, ctor)
+    okmap2 = "%s.map(|(remaining,%s)|{ParsedNetflow::new(remaining,NetflowPacket::%s)})" % (call, var, ctor)
+    if not (b.startswith(sig + okmap + ".map_err(") or b.startswith(sig + okmap2 + ".map_err(")) or not b.endswith(")}"):
+        raise Unrecognised(what + ": wrapper body not in the recognised form")
     m = need(re.search(r"\.map_err\(\|e\|\{?NetflowParseError::Partial\(PartialParse\{version:(\d+),(?:error:e\.to_string\(\),remaining:packet\.to_vec\(\)|remaining:packet\.to_vec\(\),error:e\.to_string\(\))\}\)\}?\)", b), what + ": map_err shape")
     return int(m.group(1))
 
@@ -145,9 +159,20 @@ V9_DATA_RHS = "{let(i,data)=Data::parse(i,parser,id)?;Ok((i,FlowSetBody::Data(da
 ERR_RHS = "Err(nom::Err::Error(nom::error::Error::new(i,nom::error::ErrorKind::Verify)))"
 
 
+V9_BODY_SIG = "fnparse<'a>(i:&'a[u8],parser:&mutV9Parser,id:u16)->IResult<&'a[u8],FlowSetBody>{matchid{"
+IP_BODY_SIG = "fnparse<'a>(i:&'a[u8],parser:&mutIPFixParser,id:u16)->IResult<&'a[u8],FlowSetBody>{matchid{"
+
+
+def _framed(b, sig, what):
+    """the impl holds exactly `fn parse(..) { match id { ARMS } }`: no statement before or after the match, no local item"""
+    if not (b.startswith(sig) and b.endswith("}}")):
+        raise Unrecognised(what + ": the function is not exactly one `match id`")
+    return b[len(sig):-2]
+
+
 def v9_arms(v9):
     b = fn_body(v9, r"impl\s+FlowSetBody\s*\{", "v9 FlowSetBody::parse")
-    arms = split_arms(match_block(b, "id", "v9 FlowSetBody::parse"))
+    arms = split_arms(_framed(b, V9_BODY_SIG, "v9 FlowSetBody::parse"))
     table = {"_ifid==TEMPLATE_ID": ("tmpl", V9_TMPL_RHS), "_ifid==OPTIONS_TEMPLATE_ID": ("optTmpl", V9_OPT_RHS),
              "_ifparser.options_templates.contains_key(&id)": ("optData", V9_OPTDATA_RHS),
              "_ifparser.templates.contains_key(&id)": ("data", V9_DATA_RHS)}
@@ -228,7 +253,7 @@ IP_OPT_RHS = ("{let(i,options_template)=OptionsTemplate::parse(i)?;" + IP_INVALI
 
 def ip_arms(ipf):
     b = fn_body(ipf, r"impl\s+FlowSetBody\s*\{", "ipfix FlowSetBody::parse")
-    arms = split_arms(match_block(b, "id", "ipfix FlowSetBody::parse"))
+    arms = split_arms(_framed(b, IP_BODY_SIG, "ipfix FlowSetBody::parse"))
     out, cmps = [], None
     for pat, rhs in arms[:-1]:
         m = re.fullmatch(r"_ifid%sSET_MIN_RANGE&&id%sOPTIONS_TEMPLATE_ID" % (CMPRE, CMPRE), pat)
@@ -265,6 +290,12 @@ def ip_valid(ipf):
     cnt = fn_body(ipf, r"fn\s+get_field_count\s*\(\s*&self\s*\)\s*->\s*usize\s*\{", "get_field_count")
     if cnt != "self.get_fields().len()":
         raise Unrecognised("get_field_count")
+    sq = squash(ipf)
+    for ty in ("Template", "OptionsTemplate"):
+        if sq.count("implCommonTemplatefor%s{fnget_fields(&self)->&Vec<TemplateField>{&self.fields}}" % ty) != 1:
+            raise Unrecognised("impl CommonTemplate for %s is not exactly get_fields" % ty)
+    if sq.count("implCommonTemplatefor") != 2 or sq.count("fnis_valid(") != 1 or sq.count("fnget_field_count(") != 1:
+        raise Unrecognised("CommonTemplate: overriding or additional impls")
     return CMP[m.group(1)], int(m.group(2))
 
 
@@ -309,6 +340,89 @@ def ip_opt_count(ipf):
     return True
 
 
+
+# ------------------------------------------------------------------------------------------------ shape-only items
+# Regions the Lean model hard-codes and no other item reads.  They carry no parameter: a recognised shape contributes nothing to
+# `Generated.ctl`, an unrecognised one is a FALLBACK (reported in the evidence, and check.py then widens its search), so that an edit
+# there is at least never silent.
+
+def _squashed_struct(src, name, what):
+    ms = list(re.finditer(r"((?:#\[[^\]]*\]\s*)*)(?:pub\s+)?struct\s+%s\s*\{" % name, src))
+    if len(ms) != 1:
+        raise Unrecognised(what + ": struct found %d times" % len(ms))
+    i = src.index("{", ms[0].end() - 1)
+    depth = 0
+    for j in range(i, len(src)):
+        if src[j] == "{":
+            depth += 1
+        elif src[j] == "}":
+            depth -= 1
+            if depth == 0:
+                return squash(ms[0].group(1)), squash(src[i + 1:j]).rstrip(",")
+    raise Unrecognised(what + ": unbalanced")
+
+
+def shape_entry(S):
+    attrs, body = _squashed_struct(S["lib"], "GenericNetflowHeader", "GenericNetflowHeader")
+    if body != "version:u16" or not re.fullmatch(r"#\[derive\([A-Za-z,]*\bNom\b[A-Za-z,]*\)\]", attrs):
+        raise Unrecognised("GenericNetflowHeader is not `#[derive(Nom)] struct { version: u16 }`")
+    new = fn_body(S["lib"], r"impl\s+ParsedNetflow\s*\{", "ParsedNetflow::new")
+    if new != "fnnew(remaining:&[u8],result:NetflowPacket)->Self{Self{remaining:remaining.to_vec(),result}}":
+        raise Unrecognised("ParsedNetflow::new")
+    pm = list(re.finditer(r"((?:#\[[^\]]*\]\s*)+)pub\s+enum\s+ProtocolTypes\s*\{", S["proto"]))
+    if len(pm) != 1:
+        raise Unrecognised("ProtocolTypes enum")
+    pa = squash(pm[0].group(1))
+    if "#[repr(u8)]" not in pa or not re.search(r"#\[derive\([A-Za-z,]*\bNom\b[A-Za-z,]*\)\]", pa) or "#[nom" in pa:
+        raise Unrecognised("ProtocolTypes is not `#[repr(u8)]` + derive(Nom) without further nom attributes")
+    return {"entryShape": True}
+
+
+def shape_counts(S):
+    for src, what in ((S["v5"], "V5"), (S["v7"], "V7")):
+        attrs, body = _squashed_struct(src, what, what)
+        if body != 'pubheader:Header,#[nom(Count="header.count")]pubflowsets:Vec<FlowSet>' or "#[nom" in attrs:
+            raise Unrecognised("%s struct: header + Count = header.count" % what)
+    attrs, body = _squashed_struct(S["v9"], "V9", "V9")
+    if body != 'pubheader:Header,#[nom(Parse="{|i|FlowSetParser::parse_flowsets(i,parser,header.count)}")]pubflowsets:Vec<FlowSet>' or \
+            attrs.count("#[nom") != 1 or "#[nom(ExtraArgs(parser:&mutV9Parser))]" not in attrs:
+        raise Unrecognised("V9 struct")
+    return {"countShape": True}
+
+
+def shape_v9_data(S):
+    v9 = S["v9"]
+    attrs, body = _squashed_struct(v9, "Data", "v9 Data")
+    want = ('#[nom(Parse="{|i|FieldParser::parse(i,parser.templates.get(&flowset_id).cloned().unwrap_or_default())}")]'
+            'pubfields:Vec<BTreeMap<usize,V9FieldPair>>,#[serde(skip_serializing)]pubpadding:Vec<u8>')
+    if body != want:
+        raise Unrecognised("v9 Data struct attributes")
+    attrs, body = _squashed_struct(v9, "OptionDataField", "OptionDataField")
+    if body != '#[nom(Value(field.field_type))]pubfield_type:V9Field,#[nom(Map="|i:&[u8]|i.to_vec()",Take="field.field_length")]pubfield_value:Vec<u8>':
+        raise Unrecognised("OptionDataField attributes")
+    b = fn_body(v9, r"fn\s+parse_data_field\b[^{]*\{", "parse_data_field")
+    if b != ("letmutdata_field=BTreeMap::new();for(field_index,template_field)intemplate.fields.iter().enumerate(){"
+             "let(new_input,field_value)=template_field.parse_as_field_value(input)?;input=new_input;"
+             "data_field.insert(field_index,(template_field.field_type,field_value));}Ok((input,data_field))"):
+        raise Unrecognised("parse_data_field")
+    b = fn_body(v9, r"pub\s+fn\s+parse_as_field_value\b[^{]*\{", "v9 parse_as_field_value")
+    if b != "FieldValue::from_field_type(input,self.field_type.into(),self.field_length)":
+        raise Unrecognised("v9 parse_as_field_value")
+    return {"v9DataShape": True}
+
+
+def shape_ip_data(S):
+    ipf = S["ipf"]
+    for name, cache, ty in (("Data", "templates", "Template"), ("OptionsData", "options_templates", "OptionsTemplate")):
+        attrs, body = _squashed_struct(ipf, name, "ipfix " + name)
+        want = ('#[nom(PreExec="lettemplate=parser.%s.get(&set_id).cloned().unwrap_or_default();",ErrorIf="template.get_fields().is_empty()",'
+                'Parse="{|i|FieldParser::parse::<%s>(i,template)}")]pubfields:Vec<BTreeMap<usize,(IPFixField,FieldValue)>>,'
+                '#[serde(skip_serializing)]pubpadding:Vec<u8>') % (cache, ty)
+        if body != want or attrs.count("#[nom") != 1 or "#[nom(ExtraArgs(parser:&mutIPFixParser,set_id:u16))]" not in attrs:
+            raise Unrecognised("ipfix %s struct" % name)
+    return {"ipDataShape": True}
+
+
 ITEMS = [
     # key, function(sources) -> dict of Ctl fields
     ("ctl_gate", lambda S: lib_gate(S["lib"])),
@@ -331,6 +445,10 @@ ITEMS = [
     ("ctl_ipLoop", lambda S: dict(zip(("ipBreakCmp1", "ipBreakVal", "ipBreakCmp2"), ip_loop(S["ipf"])))),
     ("ctl_ipEmptyErr", lambda S: {"ipEmptyErr": ip_empty_err(S["ipf"])}),
     ("ctl_ipOptCount", lambda S: {"ipOptCountShape": ip_opt_count(S["ipf"])}),
+    ("shape_entry", shape_entry),
+    ("shape_counts", shape_counts),
+    ("shape_v9Data", shape_v9_data),
+    ("shape_ipData", shape_ip_data),
 ]
 
 CTL_FIELDS = ["gateFirst", "v5ErrVersion", "v7ErrVersion", "v9ErrVersion", "ipErrVersion", "v9SetSub", "v9Arms", "v9ScopeDiv", "v9OptDiv", "v9SkipEmpty",
